@@ -31,6 +31,8 @@ type evRun struct {
 	Samples   []interface{}  `json:"-"`
 }
 
+var evCrossChecked int
+
 func buildEvRun(prop string, e EntrySpec, params map[string]int, res *RunResult) evRun {
 	solver := e.Solver
 	if solver == "" {
@@ -108,6 +110,7 @@ func writeEvidenceFile(spec *CheckSpec, tier string, seed int64, runs []evRun, v
 			"solver_queries":                queries,
 			"solver_wall_s":                 solverS,
 			"known_findings_reproduced":     known,
+			"cross_solver_paths_rechecked":  evCrossChecked,
 			"unreplayable_candidates":       unreplayable,
 			"problems":                      problems,
 			"models_used":                   spec.Models,
